@@ -218,6 +218,8 @@ def cells(tier):
                     goals=["wrong-id", "answered"]))
     for P in ((2, 3) if quick else (2, 3, 4, 5)):
         for peer in ("dead", "responsive", "chatty"):
+            if peer == "chatty" and P > 3:
+                continue  # 2^(3P+4) traffic patterns: beyond the budget
             out.append(Cell(f"scenario/P{P}/{peer}", (lambda I, P=P, peer=peer: h_scenario(I, P, peer)),
                             dict(period=P, horizon_ticks=3 * P + 4, phase="symbolic in [0,P]",
                                  peer=peer, per_tick="traffic arrival symbolic; answer delay symbolic in [0,P]"),
